@@ -47,6 +47,7 @@ type GenesisSpec struct {
 	MaxGas       int64            `json:"max_gas"`        // consensus param; -1 unlimited
 	EthSupplyCap string           `json:"eth_supply_cap"` // wei
 	OtherCurr    bool             `json:"other_currencies"`
+	Erc20        bool             `json:"erc20"`       // register the ERC20 token TTC (wrapped as currency TTC) and give every account EthBalance units of it
 	EthBalance   int64            `json:"eth_balance"`
 	Claims       map[string]int64 `json:"claims"` // delegation reward claims preloaded at genesis (units) // wrapped ETH units given to every account at genesis (with matching supply counter)
 }
@@ -110,6 +111,10 @@ var GenesisTime = time.Date(2024, 1, 1, 0, 0, 0, 0, time.UTC)
 // LockRedeemContract is the (never deployed) address the embedded ethereum transactions target.
 var LockRedeemContract = ethcommon.HexToAddress("0x00000000000000000000000000000000000C0DE1")
 
+// the ERC20 side: the token contract and the lock/redeem contract that holds locked tokens
+var TokenContract = ethcommon.HexToAddress("0x00000000000000000000000000000000000070CE")
+var ErcLockContract = ethcommon.HexToAddress("0x00000000000000000000000000000000000C0DE2")
+
 // DefaultGenesis is the small-amount genesis family (DESIGN.md section 1): OLT with two decimals.
 func DefaultGenesis() GenesisSpec {
 	return GenesisSpec{
@@ -160,6 +165,13 @@ func OlvmGenesis() GenesisSpec {
 	return gs
 }
 
+// Erc20Genesis: EthGenesis with the ERC20 token TTC registered; the erc20 workloads lock and redeem the token.
+func Erc20Genesis() GenesisSpec {
+	gs := EthGenesis()
+	gs.Erc20 = true
+	return gs
+}
+
 // EthGenesis5: five witnesses (threshold 4 of 5), a witness count that is not of the form 3f+1.
 func EthGenesis5() GenesisSpec {
 	gs := EthGenesis()
@@ -178,6 +190,13 @@ type Genesis struct {
 	OLT        balance.Currency
 }
 
+func tokenList(gs GenesisSpec) []ethchain.ERC20Token {
+	if !gs.Erc20 {
+		return []ethchain.ERC20Token{}
+	}
+	return []ethchain.ERC20Token{{TokName: "TTC", TokAddr: TokenContract, TokAbi: contract.ERC20BasicABI, TokTotalSupply: gs.EthSupplyCap}}
+}
+
 func amt(v int64) balance.Amount { return *balance.NewAmountFromInt(v) }
 
 func BuildGenesis(gs GenesisSpec) *Genesis {
@@ -188,6 +207,9 @@ func BuildGenesis(gs GenesisSpec) *Genesis {
 	eth := balance.Currency{Id: 3, Name: "ETH", Chain: chain.ETHEREUM, Decimal: 18, Unit: "wei"}
 	vt := balance.Currency{Id: 1, Name: "VT", Chain: chain.ONELEDGER, Unit: "vt"}
 	currencies = append(currencies, vt, balance.Currency{Id: 2, Name: "BTC", Chain: chain.BITCOIN, Decimal: 8, Unit: "satoshi"}, eth)
+	if gs.Erc20 {
+		currencies = append(currencies, balance.Currency{Id: 4, Name: "TTC", Chain: chain.ETHEREUM, Decimal: 18, Unit: "ttc"})
+	}
 
 	var balances []consensus.BalanceState
 	addAcct := func(a *Account) {
@@ -199,6 +221,9 @@ func BuildGenesis(gs GenesisSpec) *Genesis {
 		}
 		if gs.EthBalance > 0 {
 			balances = append(balances, consensus.BalanceState{Address: a.Addr, Currency: "ETH", Amount: amt(gs.EthBalance)})
+			if gs.Erc20 {
+				balances = append(balances, consensus.BalanceState{Address: a.Addr, Currency: "TTC", Amount: amt(gs.EthBalance)})
+			}
 		}
 	}
 	for _, n := range gs.Accounts {
@@ -250,6 +275,9 @@ func BuildGenesis(gs GenesisSpec) *Genesis {
 	if gs.EthBalance > 0 {
 		n := int64(len(gs.Accounts) + len(gs.Validators) + len(gs.Candidates))
 		balances = append(balances, consensus.BalanceState{Address: keys.Address(EthSupplyAddr), Currency: "ETH", Amount: amt(gs.EthBalance * n)})
+		if gs.Erc20 {
+			balances = append(balances, consensus.BalanceState{Address: keys.Address(EthSupplyAddr), Currency: "TTC", Amount: amt(gs.EthBalance * n)})
+		}
 	}
 	for _, n := range []string{BountyAddr, ExecCostConfig, ExecCostCode, ExecCostGen, RewardPoolAddr, EthSupplyAddr} {
 		g.Names[Hex([]byte(n))] = "pool:" + n
@@ -278,7 +306,7 @@ func BuildGenesis(gs GenesisSpec) *Genesis {
 	gov := governance.GovernanceState{
 		FeeOption: fees.FeeOption{FeeCurrency: olt, MinFeeDecimal: gs.OLTDecimal},
 		ETHCDOption: ethchain.ChainDriverOption{
-			ContractABI: contract.LockRedeemABI, ERCContractABI: contract.LockRedeemERCABI, TokenList: []ethchain.ERC20Token{},
+			ContractABI: contract.LockRedeemABI, ERCContractABI: contract.LockRedeemERCABI, TokenList: tokenList(gs), ERCContractAddress: ErcLockContract,
 			ContractAddress: LockRedeemContract, TotalSupply: gs.EthSupplyCap, TotalSupplyAddr: EthSupplyAddr, BlockConfirmation: 12,
 		},
 		BTCCDOption: bitcoin.ChainDriverOption{ChainType: "testnet3", TotalSupply: "1000000000", TotalSupplyAddr: EthSupplyAddr, BlockConfirmation: 6},
